@@ -1657,3 +1657,869 @@ example : Good (T.toH exT) ∧ T.mask exT ≠ 0 := by
   simp [exT, T.toH, T.toHL, Good, GoodL, Hier.mask, Hier.maskL, T.mask, T.maskL]
 
 end DendroModel.C05
+
+/-! ## extension round: not-rooted majority rule, caches, credibility scores, well-formed lengths -/
+namespace DendroModel.C05.Aux
+open DendroModel DendroModel.Hier DendroModel.C05
+
+/-- bits of a normalised mask, `lo` a single bit `k` -/
+theorem bits_norm_in (L k m : Nat) (hk : k ∈ bits m) : bits (Hier.norm L (1 <<< k) m) = bits L \ bits m := by
+  unfold Hier.norm
+  have : m &&& (1 <<< k) ≠ 0 := by
+    intro hz
+    have hd := (and_eq_zero_iff _ _).mp hz
+    rw [bits_shift] at hd
+    exact (Set.disjoint_left.mp hd) hk rfl
+  rw [if_pos this, bits_sdiff]
+
+theorem bits_norm_out (L k m : Nat) (hk : k ∉ bits m) : bits (Hier.norm L (1 <<< k) m) = bits m ∩ bits L := by
+  unfold Hier.norm
+  have : ¬ (m &&& (1 <<< k) ≠ 0) := by
+    intro h; exact hk (mem_bits_of_and_shift_ne_zero h)
+  rw [if_neg this, bits_and]
+
+theorem norm_avoids (L k m : Nat) : k ∉ bits (Hier.norm L (1 <<< k) m) := by
+  by_cases hk : k ∈ bits m
+  · rw [bits_norm_in L k m hk]; exact fun h => h.2 hk
+  · rw [bits_norm_out L k m hk]; exact fun h => hk h.1
+
+theorem norm_sub (L k m : Nat) : bits (Hier.norm L (1 <<< k) m) ⊆ bits L := by
+  by_cases hk : k ∈ bits m
+  · rw [bits_norm_in L k m hk]; exact Set.sdiff_subset
+  · rw [bits_norm_out L k m hk]; exact Set.inter_subset_right
+
+theorem lam_sets {a b : Nat} (h : Lam a b) : Disjoint (bits b) (bits a) ∨ bits b ⊆ bits a ∨ bits a ⊆ bits b := by
+  rcases h with h | h | h
+  · exact Or.inl ((and_eq_zero_iff b a).mp h)
+  · exact Or.inr (Or.inl ((and_eq_left_iff b a).mp h))
+  · right; right; rw [Nat.and_comm] at h; exact (and_eq_left_iff a b).mp h
+
+/-- normalising two laminar subsets of `L` on the same bit keeps them laminar -/
+theorem norm_lam (L k a b : Nat) (ha : bits a ⊆ bits L) (hb : bits b ⊆ bits L) (h : Lam a b) :
+    Lam (Hier.norm L (1 <<< k) a) (Hier.norm L (1 <<< k) b) := by
+  have hs := lam_sets h
+  by_cases hka : k ∈ bits a <;> by_cases hkb : k ∈ bits b
+  · -- both complemented
+    rcases hs with hd | hsub | hsub
+    · exact absurd hka (fun hh => (Set.disjoint_left.mp hd) hkb hh)
+    · apply lam_of_sub'
+      rw [bits_norm_in L k a hka, bits_norm_in L k b hkb]
+      exact Set.sdiff_subset_sdiff_right hsub
+    · apply lam_of_sub
+      rw [bits_norm_in L k a hka, bits_norm_in L k b hkb]
+      exact Set.sdiff_subset_sdiff_right hsub
+  · rcases hs with hd | hsub | hsub
+    · apply lam_of_sub
+      rw [bits_norm_in L k a hka, bits_norm_out L k b hkb]
+      intro x hx; exact ⟨hx.2, fun hxa => (Set.disjoint_left.mp hd) hx.1 hxa⟩
+    · apply lam_of_disj
+      rw [bits_norm_in L k a hka, bits_norm_out L k b hkb, Set.disjoint_left]
+      intro x hx hx'; exact hx'.2 (hsub hx.1)
+    · exact absurd (hsub hka) hkb
+  · rcases hs with hd | hsub | hsub
+    · apply lam_of_sub'
+      rw [bits_norm_out L k a hka, bits_norm_in L k b hkb]
+      intro x hx; exact ⟨hx.2, fun hxb => (Set.disjoint_left.mp hd) hxb hx.1⟩
+    · exact absurd (hsub hkb) hka
+    · apply lam_of_disj
+      rw [bits_norm_out L k a hka, bits_norm_in L k b hkb, Set.disjoint_left]
+      intro x hx hx'; exact hx.2 (hsub hx'.1)
+  · have ea : Hier.norm L (1 <<< k) a = a := by
+      apply bits_inj; rw [bits_norm_out L k a hka]; exact Set.inter_eq_left.mpr ha
+    have eb : Hier.norm L (1 <<< k) b = b := by
+      apply bits_inj; rw [bits_norm_out L k b hkb]; exact Set.inter_eq_left.mpr hb
+    rw [ea, eb]; exact h
+
+theorem one_and_eq_zero (x : Nat) (h : 0 ∉ bits x) : 1 &&& x = 0 := by
+  have := and_shift_eq_zero_of_not_mem h
+  rw [Nat.and_comm] at this
+  simpa using this
+
+/-- what `prep` keeps, on the not-rooted route, of a mask inside `all` that avoids bit 0 -/
+theorem prep_unrooted_of_sub (all n : Nat) (hn : n &&& all = n) (h0 : 0 ∉ bits n) :
+    C01.prep all false n = if n ≠ all ∧ (n - 1) &&& n ≠ 0 then some n else none := by
+  unfold C01.prep
+  simp only [hn, one_and_eq_zero n h0]
+  by_cases h1 : n = all
+  · simp [h1]
+  · by_cases h2 : (n - 1) &&& n = 0
+    · simp [h1, h2]
+    · simp [h1, h2]
+
+end DendroModel.C05.Aux
+
+namespace DendroModel.C05
+open DendroModel DendroModel.Hier DendroModel.C05.Aux
+
+/-- **Majority-rule consensus of NOT-rooted samples, all and only.**  `k` is the lowest taxon bit of the namespace's leaf set
+    `all`; every record lists (without repetition) exactly the clades of a well-formed tree over `all`, normalised on bit `k`
+    (a clade containing `k` is replaced by its complement — what `encode_bipartitions` stores for a tree that is not rooted).
+    For a threshold above one half and non-negative weights the consensus the driver builds on the not-rooted route
+    (`prep` with its complement handling on bit 0, greedy insertion into the star) is well formed, spans `all`, and its clades
+    are exactly the star's clades together with the non-empty splits that occur in some tree and whose frequency reaches the
+    threshold (the empty split is the normalised root edge, present in every tree and never inserted). -/
+theorem majority_consensus_unrooted_reaches (useW : Bool) (ts : List TreeRec) (m : Rat) (all k : Nat) (members : List Nat)
+    (hm : 1 / 2 < m) (hw : ∀ t ∈ ts, 0 ≤ wt useW t) (hg : Good (starOf members)) (hall : Hier.mask (starOf members) = all)
+    (hk : k ∈ bits all) (hlow : ∀ j, j < k → j ∉ bits all)
+    (hts : ∀ t ∈ ts, t.splits.Nodup ∧ ∃ h : Hier.T, Good h ∧ Hier.mask h = all ∧
+              ∀ x : Nat, (x : Int) ∈ t.splits ↔ ∃ c ∈ clades h, x = Hier.norm all (1 <<< k) c) :
+    Good (consensus (countAll useW ts) (some m) all members false)
+    ∧ Hier.mask (consensus (countAll useW ts) (some m) all members false) = all
+    ∧ ∀ x, x ∈ clades (consensus (countAll useW ts) (some m) all members false)
+        ↔ x ∈ clades (starOf members)
+          ∨ (x ≠ 0 ∧ reaches m (freq (countAll useW ts) (x : Int)) ∧ ∃ t ∈ ts, (x : Int) ∈ t.splits) := by
+  -- a normalised split lies inside `all`, avoids bit k and bit 0
+  have hnorm : ∀ t ∈ ts, ∀ n : Nat, (n : Int) ∈ t.splits → n &&& all = n ∧ k ∉ bits n ∧ 0 ∉ bits n ∧ n ≠ all := by
+    intro t ht n hs
+    obtain ⟨_, h, _, _, hcl⟩ := hts t ht
+    obtain ⟨c, _, rfl⟩ := (hcl n).mp hs
+    have hsub := norm_sub all k c
+    have hav := norm_avoids all k c
+    refine ⟨(and_eq_left_iff _ _).mpr hsub, hav, ?_, ?_⟩
+    · by_cases hk0 : k = 0
+      · subst hk0; exact hav
+      · exact fun h0 => hlow 0 (Nat.pos_of_ne_zero hk0) (hsub h0)
+    · intro he; rw [he] at hav; exact hav hk
+  have hcand : ∀ n : Nat, (n : Int) ∈ candidates (countAll useW ts) (some m) →
+      (∃ t ∈ ts, (n : Int) ∈ t.splits) ∧ reaches m (freq (countAll useW ts) (n : Int)) ∧ n &&& all = n
+        ∧ 0 ∉ bits n ∧ n ≠ all ∧ (ts.map (wt useW)).sum < 2 * wsum useW ts (n : Int) := by
+    intro n hn
+    obtain ⟨hkk, hr⟩ := (mem_candidates _ _ _).mp hn
+    obtain ⟨t, ht, hs⟩ := (counted_iff useW ts _).mp hkk
+    have hr' : reaches m (freq (countAll useW ts) (n : Int)) := hr
+    obtain ⟨h1, _, h3, h4⟩ := hnorm t ht n hs
+    exact ⟨⟨t, ht, hs⟩, hr', h1, h3, h4, half_of_freq useW ts _ hw ⟨t, ht, hs⟩ (reaches_gt_half m _ hm hr')⟩
+  have hss : ∀ s, s ∈ ((candidates (countAll useW ts) (some m)).map Int.toNat).filterMap (C01.prep all false) ↔
+      ((s : Int) ∈ candidates (countAll useW ts) (some m) ∧ (s - 1) &&& s ≠ 0) := by
+    intro s
+    simp only [List.mem_filterMap, List.mem_map]
+    constructor
+    · rintro ⟨n, ⟨c, hc, rfl⟩, hp⟩
+      by_cases hneg : c < 0
+      · rw [Int.toNat_of_nonpos (le_of_lt hneg), prep_zero] at hp; cases hp
+      · have hc' : ((c.toNat : Nat) : Int) = c := Int.toNat_of_nonneg (not_lt.mp hneg)
+        have hcn : ((c.toNat : Nat) : Int) ∈ candidates (countAll useW ts) (some m) := by rw [hc']; exact hc
+        obtain ⟨_, _, hsub, h0, _, _⟩ := hcand c.toNat hcn
+        rw [prep_unrooted_of_sub all c.toNat hsub h0] at hp
+        split at hp
+        · rename_i hcond
+          simp only [Option.some.injEq] at hp
+          subst hp; exact ⟨hcn, hcond.2⟩
+        · cases hp
+    · rintro ⟨hc, h2⟩
+      obtain ⟨_, _, hsub, h0, hne, _⟩ := hcand s hc
+      refine ⟨s, ⟨(s : Int), hc, by simp⟩, ?_⟩
+      rw [prep_unrooted_of_sub all s hsub h0]; simp [hne, h2]
+  have hbuild := C01.build_spec (starOf members)
+    (((candidates (countAll useW ts) (some m)).map Int.toNat).filterMap (C01.prep all false)) hg
+    (by
+      intro s hs
+      obtain ⟨hc, h2⟩ := (hss s).mp hs
+      obtain ⟨_, _, hsub, _, _, _⟩ := hcand s hc
+      have hsub' : s &&& Hier.mask (starOf members) = s := by rw [hall]; exact hsub
+      refine ⟨?_, hsub', compat_star members s hsub'⟩
+      intro h0; subst h0; simp at h2)
+    (by
+      intro s hs b hb
+      obtain ⟨hcs, _⟩ := (hss s).mp hs
+      obtain ⟨hcb, _⟩ := (hss b).mp hb
+      obtain ⟨_, _, _, _, _, hhs⟩ := hcand s hcs
+      obtain ⟨_, _, _, _, _, hhb⟩ := hcand b hcb
+      obtain ⟨t, ht, h1, h2⟩ := majority_cooccur useW ts s b (fun t ht => (hts t ht).1) hw hhs hhb
+      obtain ⟨_, h, hgh, hmh, hcl⟩ := hts t ht
+      obtain ⟨c1, hc1, rfl⟩ := (hcl s).mp h1
+      obtain ⟨c2, hc2, rfl⟩ := (hcl b).mp h2
+      have hsub1 : bits c1 ⊆ bits all := by rw [← hmh]; exact clades_sub h c1 hc1
+      have hsub2 : bits c2 ⊆ bits all := by rw [← hmh]; exact clades_sub h c2 hc2
+      exact norm_lam all k c1 c2 hsub1 hsub2 (clades_laminar h hgh c1 hc1 c2 hc2))
+  unfold consensus C01.build
+  refine ⟨hbuild.1, hbuild.2.1.trans hall, ?_⟩
+  intro x
+  rw [hbuild.2.2 x, hss x]
+  constructor
+  · rintro (h | ⟨hc, h2⟩)
+    · exact Or.inl h
+    · obtain ⟨hex, hr, _, _, _, _⟩ := hcand x hc
+      exact Or.inr ⟨by intro h0; subst h0; simp at h2, hr, hex⟩
+  · rintro (h | ⟨hx0, hr, t, ht, hs⟩)
+    · exact Or.inl h
+    · have hc : (x : Int) ∈ candidates (countAll useW ts) (some m) :=
+        (mem_candidates _ _ _).mpr ⟨(counted_iff useW ts _).mpr ⟨t, ht, hs⟩, hr⟩
+      obtain ⟨hsub, _, _, _⟩ := hnorm t ht x hs
+      by_cases h2 : (x - 1) &&& x = 0
+      · left
+        obtain ⟨j, rfl⟩ := single_bit x hx0 h2
+        have hj : j ∈ bits all := (and_eq_left_iff _ _).mp hsub (by rw [bits_shift]; rfl)
+        rw [← hall, mask_star_bits] at hj
+        exact (mem_clades_star members _).mpr (Or.inr ⟨j, hj, rfl⟩)
+      · exact Or.inr ⟨hc, h2⟩
+
+/-- the auditor's form for not-rooted samples: threshold above one half and not within 1e-7 of one -/
+theorem majority_consensus_unrooted_exact (useW : Bool) (ts : List TreeRec) (m : Rat) (all k : Nat) (members : List Nat)
+    (hm : 1 / 2 < m) (hm1 : ¬ C04.absR (m - 1) ≤ (1 : Rat) / 10000000)
+    (hw : ∀ t ∈ ts, 0 ≤ wt useW t) (hg : Good (starOf members)) (hall : Hier.mask (starOf members) = all)
+    (hk : k ∈ bits all) (hlow : ∀ j, j < k → j ∉ bits all)
+    (hts : ∀ t ∈ ts, t.splits.Nodup ∧ ∃ h : Hier.T, Good h ∧ Hier.mask h = all ∧
+              ∀ x : Nat, (x : Int) ∈ t.splits ↔ ∃ c ∈ clades h, x = Hier.norm all (1 <<< k) c) :
+    ∀ x, x ∈ clades (consensus (countAll useW ts) (some m) all members false)
+        ↔ x ∈ clades (starOf members)
+          ∨ (x ≠ 0 ∧ freq (countAll useW ts) (x : Int) ≥ m ∧ ∃ t ∈ ts, (x : Int) ∈ t.splits) := by
+  intro x
+  rw [(majority_consensus_unrooted_reaches useW ts m all k members hm hw hg hall hk hlow hts).2.2 x,
+    reaches_iff_ge m _ hm1]
+
+end DendroModel.C05
+
+namespace DendroModel.C05
+open DendroModel DendroModel.Hier DendroModel.C05.Aux
+/-- non-vacuity for the not-rooted theorems: the record of the not-rooted tree (0,1,(2,3)) — clades 15,1,2,12,4,8 normalised
+    on bit 0 — meets `hts` with `all = 15`, `k = 0` -/
+example : ([14, 2, 4, 8, 12, 0] : List Int).Nodup ∧ (0 ∈ bits 15 ∧ ∀ j, j < 0 → j ∉ bits 15)
+    ∧ Good (starOf [0, 1, 2, 3]) ∧ Hier.mask (starOf [0, 1, 2, 3]) = 15
+    ∧ ∃ h : Hier.T, Good h ∧ Hier.mask h = 15 ∧
+      ∀ x : Nat, (x : Int) ∈ ([14, 2, 4, 8, 12, 0] : List Int) ↔ ∃ c ∈ clades h, x = Hier.norm 15 (1 <<< 0) c := by
+  refine ⟨by decide, ⟨by simp [bits], by intro j hj; omega⟩, by simp [starOf, Good, GoodL, Hier.mask, Hier.maskL],
+    by simp [starOf, Hier.mask, Hier.maskL], .node [.leaf 0, .leaf 1, .node [.leaf 2, .leaf 3]],
+    by simp [Good, GoodL, Hier.mask, Hier.maskL], by simp [Hier.mask, Hier.maskL], ?_⟩
+  intro x
+  have e1 : Hier.norm 15 1 15 = 0 := by decide
+  have e2 : Hier.norm 15 1 1 = 14 := by decide
+  have e3 : Hier.norm 15 1 2 = 2 := by decide
+  have e4 : Hier.norm 15 1 12 = 12 := by decide
+  have e5 : Hier.norm 15 1 4 = 4 := by decide
+  have e6 : Hier.norm 15 1 8 = 8 := by decide
+  simp [clades, cladesL, Hier.maskL, Hier.mask, e1, e2, e3, e4, e5, e6]
+  omega
+end DendroModel.C05
+
+namespace DendroModel.C05.Aux
+open DendroModel DendroModel.Hier DendroModel.C05
+
+/-! caches -/
+/-- what keeps a cached table honest: the counters never run ahead of the number of trees counted, and a table whose
+    counter equals that number is the table of the current counts -/
+def CacheInv (c : Cached) : Prop :=
+  c.countedForFreqs ≤ c.sd.total ∧ c.countedForSummaries ≤ c.sd.total
+  ∧ (∀ tbl, c.freqs = some tbl → c.countedForFreqs = c.sd.total → tbl = freqTable c.sd)
+  ∧ (∀ tbl, c.summaries = some tbl → c.countedForSummaries = c.sd.total → tbl = summaryTable c.sd)
+
+theorem countTree_total (sd : SD) (t : TreeRec) : (countTree sd t).total = sd.total + 1 := rfl
+
+theorem inv_add (c : Cached) (t : TreeRec) (h : CacheInv c) : CacheInv (c.add t) := by
+  obtain ⟨h1, h2, _, _⟩ := h
+  refine ⟨?_, ?_, ?_, ?_⟩
+  · show c.countedForFreqs ≤ (countTree c.sd t).total; rw [countTree_total]; omega
+  · show c.countedForSummaries ≤ (countTree c.sd t).total; rw [countTree_total]; omega
+  · intro tbl _ he
+    have : c.countedForFreqs = (countTree c.sd t).total := he
+    rw [countTree_total] at this; omega
+  · intro tbl _ he
+    have : c.countedForSummaries = (countTree c.sd t).total := he
+    rw [countTree_total] at this; omega
+
+theorem getFreqs_spec (c : Cached) (h : CacheInv c) :
+    c.getFreqs.2 = freqTable c.sd ∧ c.getFreqs.1.sd = c.sd ∧ CacheInv c.getFreqs.1 := by
+  obtain ⟨h1, h2, h3, h4⟩ := h
+  have hcalc : CacheInv c.calcFreqs := by
+    refine ⟨le_refl _, h2, ?_, ?_⟩
+    · intro tbl he _; simp only [Cached.calcFreqs, Option.some.injEq] at he; exact he.symm
+    · intro tbl he _; simp [Cached.calcFreqs] at he
+  unfold Cached.getFreqs
+  cases hf : c.freqs with
+  | none => refine ⟨?_, ?_, hcalc⟩ <;> trivial
+  | some tbl =>
+    simp only
+    by_cases hne : c.countedForFreqs = c.sd.total
+    · have : (c.countedForFreqs != c.sd.total) = false := by simp [hne]
+      simp only [this, Bool.false_eq_true, if_false]
+      refine ⟨h3 tbl hf hne, ?_, h1, h2, h3, h4⟩; trivial
+    · have : (c.countedForFreqs != c.sd.total) = true := by simp [hne]
+      simp only [this, if_true]
+      refine ⟨?_, ?_, hcalc⟩ <;> trivial
+
+theorem getSummaries_spec (c : Cached) (h : CacheInv c) :
+    c.getSummaries.2 = summaryTable c.sd ∧ c.getSummaries.1.sd = c.sd ∧ CacheInv c.getSummaries.1 := by
+  obtain ⟨h1, h2, h3, h4⟩ := h
+  have hre : CacheInv { c with summaries := some (summaryTable c.sd) } := by
+    refine ⟨h1, h2, h3, ?_⟩
+    intro tbl he _; simp only [Option.some.injEq] at he; exact he.symm
+  unfold Cached.getSummaries
+  cases hf : c.summaries with
+  | none => refine ⟨?_, ?_, hre⟩ <;> trivial
+  | some tbl =>
+    simp only
+    by_cases hne : c.countedForSummaries = c.sd.total
+    · have : (c.countedForSummaries != c.sd.total) = false := by simp [hne]
+      simp only [this, Bool.false_eq_true, if_false]
+      refine ⟨h4 tbl hf hne, ?_, h1, h2, h3, h4⟩; trivial
+    · have : (c.countedForSummaries != c.sd.total) = true := by simp [hne]
+      simp only [this, if_true]
+      refine ⟨?_, ?_, hre⟩ <;> trivial
+
+theorem getAges_spec (c : Cached) (h : CacheInv c) : c.getAges.sd = c.sd ∧ CacheInv c.getAges := by
+  obtain ⟨h1, h2, h3, h4⟩ := h
+  have hre : CacheInv { c with ages := some () } := ⟨h1, h2, h3, h4⟩
+  unfold Cached.getAges
+  cases c.ages with
+  | none => exact ⟨rfl, hre⟩
+  | some u =>
+    simp only
+    split
+    · exact ⟨rfl, hre⟩
+    · exact ⟨rfl, h1, h2, h3, h4⟩
+
+/-- looking a split up in the frequency table is `freq` -/
+theorem lookup_freqTable (sd : SD) (s : Int) : (lookupIn (freqTable sd) s).getD 0 = freq sd s := by
+  have key : ∀ (d : List (Int × Rat)) (f : Int → Rat),
+      lookupIn (d.map (fun p => (p.1, f p.1))) s = (countOf d s).map (fun _ => f s) := by
+    intro d f
+    induction d with
+    | nil => simp [lookupIn, countOf]
+    | cons p rest ih =>
+      by_cases hp : p.1 = s
+      · simp [lookupIn, countOf, hp]
+      · simp only [lookupIn, countOf, List.map_cons] at ih ⊢
+        have : ((p.1 == s) = false) := by simpa using hp
+        simp only [List.find?_cons, this]
+        exact ih
+  unfold freqTable
+  rw [key sd.counts (freq sd)]
+  unfold freq
+  cases countOf sd.counts s <;> simp
+
+theorem run_gen : ∀ (evs : List Ev) (c : Cached), CacheInv c → Cached.run c evs = specRun c.sd evs := by
+  intro evs
+  induction evs with
+  | nil => intro c _; rfl
+  | cons e es ih =>
+    intro c h
+    cases e with
+    | add t =>
+      simp only [Cached.run, Cached.step, specRun]
+      exact ih (c.add t) (inv_add c t h)
+    | freq s =>
+      obtain ⟨e1, e2, e3⟩ := getFreqs_spec c h
+      simp only [Cached.run, Cached.step, specRun]
+      rw [e1, lookup_freqTable, ih _ e3, e2]
+    | summ s =>
+      obtain ⟨e1, e2, e3⟩ := getSummaries_spec c h
+      simp only [Cached.run, Cached.step, specRun]
+      rw [e1, ih _ e3, e2]
+    | ages =>
+      simp only [Cached.run, Cached.step, specRun]
+      obtain ⟨e2, e3⟩ := getAges_spec c h
+      rw [ih _ e3, e2]
+
+/-! credibility scores -/
+theorem foldl_prod_nonzero : ∀ (l : List Rat) (acc : Rat),
+    l.foldl (fun acc f => if f == 0 then acc else acc * f) acc = acc * (l.filter (fun f => f != 0)).prod := by
+  intro l
+  induction l with
+  | nil => intro acc; simp
+  | cons f fs ih =>
+    intro acc
+    simp only [List.foldl_cons, List.filter_cons]
+    by_cases hf : f = 0
+    · subst hf
+      have := ih acc
+      simpa using this
+    · have : (f == 0) = false := by simpa using hf
+      simp only [this, Bool.false_eq_true, if_false, ih, bne, Bool.not_false, if_true, List.prod_cons]
+      ring
+
+end DendroModel.C05.Aux
+
+namespace DendroModel.C05
+open DendroModel DendroModel.Hier DendroModel.C05.Aux
+
+/-- **The caches are never stale.**  Over EVERY history of tree additions, frequency queries and summary queries on one
+    distribution (starting empty), each answer obtained through the cached tables (`_get_split_frequencies`,
+    `_get_split_edge_length_summaries` with their recalculate-iff tests) equals the answer computed afresh from all the trees
+    counted so far: `freq` of the current counts, resp. the statistics of the current value list. -/
+theorem freq_never_stale (useW : Bool) (evs : List Ev) :
+    Cached.run { sd := { useWeights := useW } } evs = specRun { useWeights := useW } evs :=
+  run_gen evs _ (by refine ⟨le_refl _, le_refl _, ?_, ?_⟩ <;> intro tbl h <;> cases h)
+
+/-- … in particular a frequency query after any history answers with the weighted fraction over all trees added so far -/
+theorem freq_never_stale_query (useW : Bool) (ts : List TreeRec) (s : Int) :
+    Cached.run { sd := { useWeights := useW } } (ts.map Ev.add ++ [Ev.freq s]) = [Ans.freq (freq (countAll useW ts) s)] := by
+  rw [freq_never_stale]
+  have : ∀ (ts : List TreeRec) (sd : SD), specRun sd (ts.map Ev.add ++ [Ev.freq s]) = [Ans.freq (freq (ts.foldl countTree sd) s)] := by
+    intro ts
+    induction ts with
+    | nil => intro sd; simp [specRun]
+    | cons t rest ih => intro sd; simp only [List.map_cons, List.cons_append, specRun, List.foldl_cons]; exact ih _
+  exact this ts _
+
+/-- which splits of a tree enter its credibility score: every split with `include_external_splits`; otherwise the root
+    split and those for which `is_trivial_bitmask` (within the tree's own leaf set) fails, i.e. — on natural masks — the
+    split is non-empty, not the whole leaf set, and neither side within the leaf set is empty or a single taxon -/
+theorem scored_spec (incl : Bool) (t : TreeRec) (a : Nat) :
+    scored incl t (a : Int) = true ↔
+      (incl = true ∨ a = t.leafset ∨
+        (a ≠ 0 ∧ ((a &&& t.leafset) - 1) &&& (a &&& t.leafset) ≠ 0
+          ∧ (sdiff t.leafset a - 1) &&& sdiff t.leafset a ≠ 0)) := by
+  unfold scored C01.isTrivial
+  rw [C01.is_trivial_refines]
+  by_cases h1 : a = t.leafset
+  · simp [h1]
+  · have h1' : ¬ ((a : Int) = (t.leafset : Int)) := by omega
+    cases incl <;> simp [h1, h1', and_assoc]
+
+/-- the sum score is the sum of the frequencies of the tree's scored splits; the product score is the product of the
+    non-zero ones (the library adds their logarithms) -/
+theorem score_spec (sd : SD) (incl : Bool) (t : TreeRec) :
+    sumSupport sd incl t = ((t.splits.filter (scored incl t)).map (freq sd)).sum
+    ∧ prodSupport sd incl t = (((t.splits.filter (scored incl t)).map (freq sd)).filter (fun f => f != 0)).prod := by
+  refine ⟨rfl, ?_⟩
+  unfold prodSupport
+  rw [foldl_prod_nonzero]; ring
+
+/-- **Maximum credibility.**  For a non-empty collection the index the driver reports (`mccSum`, resp. `mccProd`) is a
+    valid tree index, its score — Σ resp. Π of the frequencies of that tree's scored splits, `score_spec` — is at least
+    every tree's score, and it is the first such index. -/
+theorem mcc_index_spec (sd : SD) (incl : Bool) (ts : List TreeRec) (hne : ts ≠ []) :
+    (∃ i, mccSum sd incl ts = some i ∧ ∃ h : i < ts.length,
+        (∀ j (hj : j < ts.length), sumSupport sd incl ts[j] ≤ sumSupport sd incl ts[i])
+        ∧ ∀ j (hj : j < i), sumSupport sd incl (ts[j]'(by omega)) < sumSupport sd incl ts[i])
+    ∧ (∃ i, mccProd sd incl ts = some i ∧ ∃ h : i < ts.length,
+        (∀ j (hj : j < ts.length), prodSupport sd incl ts[j] ≤ prodSupport sd incl ts[i])
+        ∧ ∀ j (hj : j < i), prodSupport sd incl (ts[j]'(by omega)) < prodSupport sd incl ts[i]) := by
+  have gen : ∀ f : TreeRec → Rat, ∃ i, argmaxFirst (ts.map f) = some i ∧ ∃ h : i < ts.length,
+      (∀ j (hj : j < ts.length), f ts[j] ≤ f ts[i]) ∧ ∀ j (hj : j < i), f (ts[j]'(by omega)) < f ts[i] := by
+    intro f
+    cases ts with
+    | nil => exact absurd rfl hne
+    | cons t rest =>
+      obtain ⟨i, hi, hlt, hmax, hfirst⟩ := argmaxFirst_spec (f t) (rest.map f)
+      have hlen : ((f t) :: rest.map f).length = (t :: rest).length := by simp
+      refine ⟨i, by simpa using hi, by omega, ?_, ?_⟩
+      · intro j hj
+        have h1 := hmax (((f t) :: rest.map f)[j]'(by omega)) (List.getElem_mem _)
+        have e1 : ((f t) :: rest.map f)[j]'(by omega) = f ((t :: rest)[j]) := by
+          simp only [← List.map_cons, List.getElem_map]
+        have e2 : ((f t) :: rest.map f)[i]'hlt = f ((t :: rest)[i]'(by omega)) := by
+          simp only [← List.map_cons, List.getElem_map]
+        rw [e1, e2] at h1; exact h1
+      · intro j hj
+        have h1 := hfirst j hj
+        have e1 : ((f t) :: rest.map f)[j]'(by omega) = f ((t :: rest)[j]'(by omega)) := by
+          simp only [← List.map_cons, List.getElem_map]
+        have e2 : ((f t) :: rest.map f)[i]'hlt = f ((t :: rest)[i]'(by omega)) := by
+          simp only [← List.map_cons, List.getElem_map]
+        rw [e1, e2] at h1; exact h1
+  exact ⟨gen (sumSupport sd incl), gen (prodSupport sd incl)⟩
+
+end DendroModel.C05
+
+namespace DendroModel.C05.Aux
+open DendroModel DendroModel.Hier DendroModel.C05
+
+theorem parse_wf (s : String) (f : Frac) (h : Frac.parse s = some f) : Frac.WF f := by
+  unfold Frac.parse at h
+  split at h
+  · simp only [Option.map_eq_some_iff] at h
+    obtain ⟨p, _, rfl⟩ := h
+    exact Frac.wf_ofInt p
+  · split at h
+    · split at h
+      · cases h
+      · simp only [Option.some.injEq] at h; rw [← h]; exact Frac.wf_mk' _ _
+    · cases h
+  · cases h
+
+theorem parseOLen_wf (s : String) (f : Frac) (h : parseOLen s = some (some f)) : Frac.WF f := by
+  unfold parseOLen at h
+  split at h
+  · cases h
+  · simp only [Option.map_eq_some_iff, Option.some.injEq] at h
+    obtain ⟨g, hg, rfl⟩ := h
+    exact parse_wf s g hg
+
+theorem mapM_mem {α β : Type} (g : α → Option β) : ∀ (l : List α) (r : List β), l.mapM g = some r →
+    ∀ y ∈ r, ∃ x ∈ l, g x = some y := by
+  intro l
+  induction l with
+  | nil => intro r h y hy; simp at h; subst h; cases hy
+  | cons a l ih =>
+    intro r h y hy
+    rw [List.mapM_cons] at h
+    cases ha : g a with
+    | none => simp [ha] at h
+    | some b =>
+      cases hl : l.mapM g with
+      | none => simp [ha, hl] at h
+      | some r' =>
+        simp [ha, hl] at h
+        subst h
+        rcases List.mem_cons.mp hy with rfl | hy
+        · exact ⟨a, by simp, ha⟩
+        · obtain ⟨x, hx, hgx⟩ := ih r' hl y hy
+          exact ⟨x, List.mem_cons_of_mem _ hx, hgx⟩
+
+theorem lenWFL_map (g : Nat → T) (h : ∀ j, LenWF (g j)) : ∀ l : List Nat, LenWFL (l.map g)
+  | [] => by simp [LenWFL]
+  | j :: l => by simp only [List.map_cons, LenWFL]; exact ⟨h j, lenWFL_map g h l⟩
+
+theorem buildTree_wf (par : Array Int) (tax : Array (Option Nat)) (lens : Array (Option Frac)) (labs : Array (Option String))
+    (hl : ∀ (i : Nat) (f : Frac), lens[i]! = some f → Frac.WF f) : ∀ (fuel i : Nat), LenWF (buildTree fuel par tax lens labs i)
+  | 0, i => by simp [buildTree, LenWF, LenWFL]
+  | fuel + 1, i => by
+    simp only [buildTree, LenWF]
+    exact ⟨hl i, lenWFL_map _ (fun j => buildTree_wf par tax lens labs hl fuel j) _⟩
+
+theorem toArray_get_mem {α : Type} [Inhabited α] (l : List α) (i : Nat) : l.toArray[i]! = default ∨ l.toArray[i]! ∈ l := by
+  by_cases hi : i < l.length
+  · right
+    have : l.toArray[i]! = l[i] := by simp [hi]
+    rw [this]; exact List.getElem_mem _
+  · left
+    simp [hi]
+
+end DendroModel.C05.Aux
+
+namespace DendroModel.C05
+open DendroModel DendroModel.Hier DendroModel.C05.Aux
+
+/-- **Every tree the driver parses has well-formed lengths** (non-zero denominators): the hypothesis `LenWF` of
+    `collapse_keeps_root_tip` / `collapse_removes_exactly` holds for all protocol input. -/
+theorem parseTree_lenWF (toks : List String) (t : T) (rest : List String) (h : parseTree toks = some (t, rest)) : LenWF t := by
+  unfold parseTree at h
+  split at h
+  · cases h
+  · split at h
+    · cases h
+    · split at h
+      · cases h
+      · simp only at h
+        split at h
+        · rename_i ps xs ls ss hps hxs hls hss
+          split at h
+          · cases h
+          · simp only [Option.some.injEq, Prod.mk.injEq] at h
+            rw [← h.1]
+            apply buildTree_wf
+            intro i f hf
+            rcases toArray_get_mem ls i with hd | hm
+            · rw [hd] at hf; cases hf
+            · rw [hf] at hm
+              obtain ⟨x, _, hx⟩ := mapM_mem parseOLen _ ls hls (some f) hm
+              exact parseOLen_wf x f hx
+        · cases h
+
+end DendroModel.C05
+
+namespace DendroModel.C05.Aux
+open DendroModel DendroModel.Hier DendroModel.C05
+
+theorem lenWF_len {t : T} (h : LenWF t) : ∀ f, t.len = some f → Frac.WF f := by
+  cases t with
+  | node i x l s cs => simp only [LenWF] at h; exact fun f hf => h.1 f (by simpa [T.len] using hf)
+
+theorem lenWF_cs {t : T} (h : LenWF t) : LenWFL t.cs := by
+  cases t with
+  | node i x l s cs => simp only [LenWF] at h; exact h.2
+
+theorem withLen_wf {t : T} {l : Option Frac} (ht : LenWF t) (hl : ∀ f, l = some f → Frac.WF f) : LenWF (t.withLen l) := by
+  cases t with
+  | node i x l' s cs => simp only [LenWF, T.withLen] at ht ⊢; exact ⟨hl, ht.2⟩
+
+theorem addLen_wf {a b : Option Frac} (ha : ∀ f, a = some f → Frac.WF f) (hb : ∀ f, b = some f → Frac.WF f) :
+    ∀ f, addLen a b = some f → Frac.WF f := by
+  intro f hf
+  cases b with
+  | none => exact ha f (by simpa [addLen] using hf)
+  | some y =>
+    cases a with
+    | none => simp [addLen] at hf; rw [← hf]; exact hb y rfl
+    | some x => simp [addLen] at hf; rw [← hf]; exact Frac.wf_add x y
+
+theorem lenWFL_append : ∀ (a b : List T), LenWFL a → LenWFL b → LenWFL (a ++ b)
+  | [], b, _, hb => by simpa using hb
+  | q :: qs, b, ha, hb => by
+    simp only [LenWFL] at ha; simp only [List.cons_append, LenWFL]; exact ⟨ha.1, lenWFL_append qs b ha.2 hb⟩
+
+mutual
+theorem sup_wf : ∀ t : T, LenWF t → LenWF t.sup
+  | .node i x l s cs, h => by
+    simp only [LenWF] at h
+    have ih := supL_wf cs h.2
+    simp only [T.sup]
+    split
+    · rename_i c hc
+      rw [hc] at ih
+      simp only [LenWFL] at ih
+      exact withLen_wf ih.1 (addLen_wf (lenWF_len ih.1) h.1)
+    · simp only [LenWF]; exact ⟨h.1, ih⟩
+theorem supL_wf : ∀ cs : List T, LenWFL cs → LenWFL (T.supL cs)
+  | [], _ => by simp [T.supL, LenWFL]
+  | c :: cs, h => by
+    simp only [LenWFL] at h
+    simp only [T.supL, LenWFL]
+    exact ⟨sup_wf c h.1, supL_wf cs h.2⟩
+end
+
+theorem collapseBasal_wf (t : T) (h : LenWF t) : LenWF t.collapseBasal := by
+  cases t with
+  | node i x l s cs =>
+    match cs, h with
+    | [], h => exact h
+    | [_], h => exact h
+    | _ :: _ :: _ :: _, h => exact h
+    | [a, b], h =>
+      simp only [LenWF, LenWFL] at h
+      obtain ⟨hl, ha, hb, _⟩ := h
+      simp only [T.collapseBasal]
+      split
+      · simp only [LenWF, LenWFL]
+        exact ⟨hl, withLen_wf ha (addLen_wf (lenWF_len ha) (lenWF_len hb)), lenWF_cs hb⟩
+      · split
+        · simp only [LenWF]
+          refine ⟨hl, lenWFL_append _ _ (lenWF_cs ha) ?_⟩
+          simp only [LenWFL]
+          exact ⟨withLen_wf hb (addLen_wf (lenWF_len hb) (lenWF_len ha)), trivial⟩
+        · simp only [LenWF, LenWFL]; exact ⟨hl, ha, hb, trivial⟩
+
+theorem encodeTree_wf (r : Option Bool) (t : T) (h : LenWF t) : LenWF (C01.encodeTree r true true t) := by
+  unfold C01.encodeTree
+  simp only [if_true]
+  split
+  · exact sup_wf _ (collapseBasal_wf t h)
+  · exact sup_wf _ h
+
+end DendroModel.C05.Aux
+
+namespace DendroModel.C05
+open DendroModel DendroModel.Hier DendroModel.C05.Aux
+
+/-- **Collapse on parsed input, no side condition left.**  For every target the driver parses, when `collapseBelow` answers,
+    every root-to-tip distance of the encoded target is kept. -/
+theorem collapse_keeps_root_tip_parsed (toks rest : List String) (t t' : T) (sd : SD) (mf : Rat) (r : Option Bool)
+    (hp : parseTree toks = some (t, rest)) (hc : collapseBelow sd mf r t = some t') :
+    tips 0 t' = tips 0 (C01.encodeTree r true true t) :=
+  (collapse_removes_exactly sd mf r t t' hc).2.2.1 (encodeTree_wf r t (parseTree_lenWF toks t rest hp))
+
+end DendroModel.C05
+
+namespace DendroModel.C05
+open DendroModel DendroModel.Hier DendroModel.C05.Aux
+/-- `freq_never_stale_query` applied to a concrete history; `mcc_index_spec`'s hypothesis -/
+example : Cached.run { sd := { useWeights := false } } ([exRec, exRec].map Ev.add ++ [Ev.freq 6])
+    = [Ans.freq (freq (countAll false [exRec, exRec]) 6)] := freq_never_stale_query false _ 6
+example : [exRec] ≠ [] := by simp
+/-- `parseTree_lenWF`: the kernel cannot evaluate `String.toNat?`, so satisfiability of `parseTree toks = some _` is witnessed by
+    the driver (every protocol line of every run parses); here the step below it, on concrete arrays with a length 1/2 -/
+example : LenWF (buildTree 2 #[-1] #[some 0] #[some ⟨1, 2⟩] #[none] 0) := by
+  apply buildTree_wf
+  intro i f hf
+  rcases toArray_get_mem [some (⟨1, 2⟩ : Frac)] i with hd | hm
+  · have : (#[some (⟨1, 2⟩ : Frac)])[i]! = ([some (⟨1, 2⟩ : Frac)]).toArray[i]! := rfl
+    rw [this, hd] at hf; cases hf
+  · have : (#[some (⟨1, 2⟩ : Frac)])[i]! = ([some (⟨1, 2⟩ : Frac)]).toArray[i]! := rfl
+    rw [this] at hf; rw [hf] at hm
+    simp at hm; subst hm; simp [Frac.WF]
+end DendroModel.C05
+
+namespace DendroModel.C05.Aux
+open DendroModel DendroModel.Hier DendroModel.C05
+
+/-- among at least three distinct-mask children there is one other than any given two -/
+theorem third_child {ds : List Hier.T} (hg : GoodL ds) (h3 : 3 ≤ ds.length) (d1 d2 : Hier.T) :
+    ∃ d ∈ ds, d ≠ d1 ∧ d ≠ d2 := by
+  match ds, hg, h3 with
+  | a :: b :: c :: rest, hg, _ =>
+    have hnd := masks_nodup hg
+    simp only [List.map_cons, List.nodup_cons, List.mem_cons, not_or] at hnd
+    have hab : a ≠ b := fun e => hnd.1.1 (by rw [e])
+    have hac : a ≠ c := fun e => hnd.1.2.1 (by rw [e])
+    have hbc : b ≠ c := fun e => hnd.2.1.1 (by rw [e])
+    by_cases ha : a ≠ d1 ∧ a ≠ d2
+    · exact ⟨a, by simp, ha⟩
+    · by_cases hb : b ≠ d1 ∧ b ≠ d2
+      · exact ⟨b, by simp, hb⟩
+      · refine ⟨c, by simp, ?_, ?_⟩
+        · intro hc; subst hc
+          have ha' : a = d2 := by by_contra h; exact ha ⟨hac, h⟩
+          have hb' : b = d2 := by by_contra h; exact hb ⟨hbc, h⟩
+          exact hab (ha'.trans hb'.symm)
+        · intro hc; subst hc
+          have ha' : a = d1 := by by_contra h; exact ha ⟨h, hac⟩
+          have hb' : b = d1 := by by_contra h; exact hb ⟨h, hbc⟩
+          exact hab (ha'.trans hb'.symm)
+
+/-- on a tree whose root has at least three children no clade is the complement of another clade -/
+theorem no_complementary_clades {ds : List Hier.T} (hg : GoodL ds) (h3 : 3 ≤ ds.length) (c1 c2 : Nat)
+    (h1 : c1 ∈ clades (.node ds)) (h2 : c2 ∈ clades (.node ds)) (hc : bits c2 = bits (maskL ds) \ bits c1) : False := by
+  have hL0 : maskL ds ≠ 0 := by
+    match ds, hg, h3 with
+    | a :: rest, hg, _ =>
+      simp only [GoodL] at hg
+      intro hz
+      obtain ⟨x, hx⟩ := ne_zero_bits hg.2.1
+      have : x ∈ bits (maskL (a :: rest)) := bits_maskL_subset_of_mem (by simp) hx
+      rw [hz, bits_zero] at this; exact this
+  have hgood : Good (.node ds) := by simpa [Good] using hg
+  have hn1 : c1 ≠ 0 := clades_ne_zero _ hgood (by simpa [Hier.mask] using hL0) c1 h1
+  have hn2 : c2 ≠ 0 := clades_ne_zero _ hgood (by simpa [Hier.mask] using hL0) c2 h2
+  simp only [clades, List.mem_cons] at h1 h2
+  -- neither is the root
+  have hr1 : c1 ≠ maskL ds := by
+    intro e; apply hn2; apply bits_inj; rw [hc, e, bits_zero]; simp
+  have hr2 : c2 ≠ maskL ds := by
+    intro e; apply hn1; apply bits_inj; rw [bits_zero]
+    have hsub1 : bits c1 ⊆ bits (maskL ds) := by
+      rcases h1 with h | h
+      · rw [h]
+      · exact cladesL_sub ds c1 h
+    ext x; constructor
+    · intro hx
+      have : x ∈ bits c2 := by rw [e]; exact hsub1 hx
+      rw [hc] at this; exact this.2 hx
+    · intro hx; cases hx
+  have hm1 := h1.resolve_left hr1
+  have hm2 := h2.resolve_left hr2
+  obtain ⟨d1, hd1, hx1⟩ := (mem_cladesL _ _).mp hm1
+  obtain ⟨d2, hd2, hx2⟩ := (mem_cladesL _ _).mp hm2
+  obtain ⟨d, hd, hne1, hne2⟩ := third_child hg h3 d1 d2
+  obtain ⟨_, hdn⟩ := goodL_mem hg hd
+  obtain ⟨x, hx⟩ := ne_zero_bits hdn
+  have hxL : x ∈ bits (maskL ds) := bits_maskL_subset_of_mem hd hx
+  by_cases hx1' : x ∈ bits c1
+  · apply hne1
+    apply goodL_eq_of_inter hg hd hd1
+    intro hz
+    exact (Set.disjoint_left.mp ((and_eq_zero_iff _ _).mp hz)) hx (clades_sub d1 c1 hx1 hx1')
+  · have hx2' : x ∈ bits c2 := by rw [hc]; exact ⟨hxL, hx1'⟩
+    apply hne2
+    apply goodL_eq_of_inter hg hd hd2
+    intro hz
+    exact (Set.disjoint_left.mp ((and_eq_zero_iff _ _).mp hz)) hx (clades_sub d2 c2 hx2 hx2')
+
+/-- normalisation is injective on the clades of a tree whose root has at least three children -/
+theorem norm_inj_on_clades {ds : List Hier.T} (hg : GoodL ds) (h3 : 3 ≤ ds.length) (k : Nat) (c1 c2 : Nat)
+    (h1 : c1 ∈ clades (.node ds)) (h2 : c2 ∈ clades (.node ds))
+    (he : Hier.norm (maskL ds) (1 <<< k) c1 = Hier.norm (maskL ds) (1 <<< k) c2) : c1 = c2 := by
+  have hgood : Good (.node ds) := by simpa [Good] using hg
+  have hs1 : bits c1 ⊆ bits (maskL ds) := clades_sub (.node ds) c1 h1
+  have hs2 : bits c2 ⊆ bits (maskL ds) := clades_sub (.node ds) c2 h2
+  have hb := congrArg bits he
+  by_cases hk1 : k ∈ bits c1 <;> by_cases hk2 : k ∈ bits c2
+  · rw [bits_norm_in _ _ _ hk1, bits_norm_in _ _ _ hk2] at hb
+    apply bits_inj
+    ext x; constructor
+    · intro hx; by_contra hn
+      have : x ∈ bits (maskL ds) \ bits c2 := ⟨hs1 hx, hn⟩
+      rw [← hb] at this; exact this.2 hx
+    · intro hx; by_contra hn
+      have : x ∈ bits (maskL ds) \ bits c1 := ⟨hs2 hx, hn⟩
+      rw [hb] at this; exact this.2 hx
+  · rw [bits_norm_in _ _ _ hk1, bits_norm_out _ _ _ hk2, Set.inter_eq_left.mpr hs2] at hb
+    exact (no_complementary_clades hg h3 c1 c2 h1 h2 hb.symm).elim
+  · rw [bits_norm_out _ _ _ hk1, bits_norm_in _ _ _ hk2, Set.inter_eq_left.mpr hs1] at hb
+    exact (no_complementary_clades hg h3 c2 c1 h2 h1 hb).elim
+  · rw [bits_norm_out _ _ _ hk1, bits_norm_out _ _ _ hk2, Set.inter_eq_left.mpr hs1, Set.inter_eq_left.mpr hs2] at hb
+    exact bits_inj hb
+
+end DendroModel.C05.Aux
+
+namespace DendroModel.C05
+open DendroModel DendroModel.Hier DendroModel.C05.Aux
+
+/-- **Bridge for not-rooted input.**  For a well-formed tree that is not rooted and whose seed has at least three children as
+    drawn (so `encode_bipartitions` does not touch the seed), the record the driver builds lists every split once, and the
+    splits are exactly the clades of a well-formed hierarchy over the tree's leaf set normalised on its lowest taxon bit `k`:
+    the `hts`, `hk`, `hlow` hypotheses of `majority_consensus_unrooted_reaches` / `_exact`.
+    (`_partial`: seeds with two children, which the encoding first opens up, and unifurcating seeds are not covered.) -/
+theorem treeRecOf_unrooted_hts_partial (r : Option Bool) (w : Option Rat) (t : T) (hr : r ≠ some true)
+    (h3 : 3 ≤ t.cs.length) (hg : Good (T.toH t)) :
+    ∃ k, k ∈ bits (T.mask t) ∧ (∀ j, j < k → j ∉ bits (T.mask t))
+      ∧ (treeRecOf r w t).rooted = false
+      ∧ (treeRecOf r w t).splits.Nodup
+      ∧ ∃ h : Hier.T, Good h ∧ Hier.mask h = T.mask t ∧
+          ∀ x : Nat, (x : Int) ∈ (treeRecOf r w t).splits ↔ ∃ c ∈ clades h, x = Hier.norm (T.mask t) (1 <<< k) c := by
+  have hrf : (r == some true) = false := by
+    cases r with
+    | none => rfl
+    | some b => cases b <;> simp_all
+  obtain ⟨i, x, l, s, cs⟩ := t
+  simp only [T.cs] at h3
+  have he : C01.encodeTree r true true (.node i x l s cs) = (T.node i x l s cs).sup := by
+    unfold C01.encodeTree
+    have : ((T.node i x l s cs).cs.length == 2) = false := by simp [T.cs]; omega
+    simp [this]
+  -- the hierarchy
+  have hds : ∃ ds, Hier.sup (T.toH (.node i x l s cs)) = .node ds ∧ 3 ≤ ds.length := by
+    match cs, h3 with
+    | c :: cs', h3 =>
+      simp only [T.toH, Hier.sup]
+      have hlen : (Hier.supL (T.toHL (c :: cs'))).length = (c :: cs').length := by
+        rw [Hier.supL_length, C01.Aux.toHL_length]
+      split
+      · rename_i d hd; rw [hd] at hlen; simp only [List.length_cons, List.length_nil] at hlen h3; omega
+      · exact ⟨_, rfl, by rw [hlen]; exact h3⟩
+  obtain ⟨ds, hsup, hlen⟩ := hds
+  have hgs : Good (Hier.sup (T.toH (.node i x l s cs))) := Hier.sup_good _ hg
+  have hgds : GoodL ds := by rw [hsup] at hgs; simpa [Good] using hgs
+  have hmask : maskL ds = T.mask (.node i x l s cs) := by
+    have := Hier.sup_mask (T.toH (.node i x l s cs))
+    rw [hsup, C01.Aux.toH_mask] at this
+    simpa [Hier.mask] using this
+  have hL0 : T.mask (.node i x l s cs) ≠ 0 := by
+    rw [← hmask]
+    match ds, hgds, hlen with
+    | a :: rest, hgds, _ =>
+      simp only [GoodL] at hgds
+      intro hz
+      obtain ⟨y, hy⟩ := ne_zero_bits hgds.2.1
+      have : y ∈ bits (maskL (a :: rest)) := bits_maskL_subset_of_mem (by simp) hy
+      rw [hz, bits_zero] at this; exact this
+  obtain ⟨k, hk, hkL, hlow⟩ := C01.lsb_spec (T.mask (.node i x l s cs)) (Nat.pos_of_ne_zero hL0)
+  have hsupmask : T.mask (T.node i x l s cs).sup = T.mask (.node i x l s cs) := by
+    rw [← C01.Aux.toH_mask (T.node i x l s cs).sup, C01.Aux.sup_toH, Hier.sup_mask, C01.Aux.toH_mask]
+  have hs : (treeRecOf r w (.node i x l s cs)).splits
+      = ((T.node i x l s cs).sup.masksPost).map (fun (m : Nat) => ((Hier.norm (T.mask (.node i x l s cs)) (1 <<< k) m : Nat) : Int)) := by
+    show ((C04.edgeRecs r (.node i x l s cs)).map (·.split)) = _
+    unfold C04.edgeRecs
+    simp only [he, List.map_map]
+    rw [← edgesPost_fst true (T.node i x l s cs).sup, List.map_map]
+    apply List.map_congr_left
+    intro e _
+    simp only [Function.comp, hrf, hsupmask]
+    rw [C01.split_spec, hk]
+    simp
+  have hmem : ∀ m, m ∈ (T.node i x l s cs).sup.masksPost ↔ m ∈ clades (Hier.T.node ds) := by
+    intro m
+    rw [← hsup, ← C01.Aux.sup_toH, C01.Aux.toH_clades]
+  refine ⟨k, hkL, fun j hj => by simpa [bits] using hlow j hj, by simp [treeRecOf, hrf], ?_, .node ds, by simpa [Good] using hgds,
+    by simpa [Hier.mask] using hmask, ?_⟩
+  · rw [hs]
+    have hnd : ((T.node i x l s cs).sup.masksPost).Nodup := by
+      apply (masksPost_perm _).nodup_iff.mpr
+      rw [C01.Aux.sup_toH]
+      exact clades_nodup _ hgs (Hier.sup_noUnif _ hg (by rw [C01.Aux.toH_mask]; exact hL0))
+    apply List.Nodup.map_on _ hnd
+    intro a ha b hb hab
+    have hab' : Hier.norm (maskL ds) (1 <<< k) a = Hier.norm (maskL ds) (1 <<< k) b := by
+      rw [hmask]; exact_mod_cast hab
+    exact norm_inj_on_clades hgds hlen k a b ((hmem a).mp ha) ((hmem b).mp hb) hab'
+  · intro y
+    rw [hs]
+    simp only [List.mem_map]
+    constructor
+    · rintro ⟨m, hm, hmy⟩
+      exact ⟨m, (hmem m).mp hm, by exact_mod_cast hmy.symm⟩
+    · rintro ⟨c, hc, rfl⟩
+      exact ⟨c, (hmem c).mpr hc, rfl⟩
+
+end DendroModel.C05
+
+namespace DendroModel.C05
+open DendroModel DendroModel.Hier DendroModel.C05.Aux
+/-- hypotheses of `treeRecOf_unrooted_hts_partial`: the not-rooted tree (0,1,(2,3)) -/
+example : (some false : Option Bool) ≠ some true
+    ∧ 3 ≤ (T.node 0 none none none [.node 1 (some 0) none none [], .node 2 (some 1) none none [],
+        .node 3 none none none [.node 4 (some 2) none none [], .node 5 (some 3) none none []]]).cs.length
+    ∧ Good (T.toH (T.node 0 none none none [.node 1 (some 0) none none [], .node 2 (some 1) none none [],
+        .node 3 none none none [.node 4 (some 2) none none [], .node 5 (some 3) none none []]])) := by
+  refine ⟨by simp, by simp [T.cs], by simp [T.toH, T.toHL, Good, GoodL, Hier.mask, Hier.maskL]⟩
+end DendroModel.C05
